@@ -19,13 +19,15 @@ COH = {1: [[1.0]], 2: [[0.75, 0.25], [0.5, 0.5], [1.0, 0.0], [0.875, 0.125], [0.
        3: [[0.5, 0.25, 0.25], [0.75, 0.125, 0.125], [1.0, 0.0, 0.0], [0.25, 0.5, 0.25]]}
 PROPS = {1: [[1.0]], 2: [[0.5, 0.5], [0.75, 0.25], [0.125, 0.875], [1.0, 0.0]], 3: [[0.5, 0.25, 0.25], [0.25, 0.25, 0.5], [0.625, 0.25, 0.125]]}
 BLOCS = ["W", "C", "X"]
+BLOC_NAME_SETS = [["W", "C", "X"], ["W", "C", "X"], ["bloc_1", "bloc_2", "bloc_3"], ["White", "POC", "Other voters"], ["b", "a", "ab"]]
 
 
 def gen_params(rng, gname):
     nb = rng.choice([1, 2, 2, 3])
     if gname in ("slate_PL", "slate_BT", "AlternatingCrossover", "slate_BT_MCMC", "CambridgeSampler"):
         nb = 2 if gname != "slate_PL" else rng.choice([1, 2, 2, 3, 3])
-    blocs = BLOCS[:nb]
+    universe = list(rng.choice(BLOC_NAME_SETS))
+    blocs = universe[:nb]
     sizes = [rng.randint(1, 3) for _ in blocs]
     if gname == "AlternatingCrossover" and rng.random() < 0.7:
         sizes = [sizes[0], sizes[0]]
@@ -59,7 +61,7 @@ def gen_params(rng, gname):
         rng.shuffle(order)
         props = {b: props[b] for b in order}
         blocs = order
-    return {"blocs": blocs, "slates": slates, "intervals": ints, "cohesion": coh, "props": props}
+    return {"blocs": blocs, "slates": slates, "intervals": ints, "cohesion": coh, "props": props, "bloc_universe": universe}
 
 
 def gen_case(rng, gname=None):
@@ -77,12 +79,22 @@ def gen_case(rng, gname=None):
                 if any(v is None for v in vals):
                     vals = [0.5] + [0.5 / (k - 1)] * (k - 1) if k in (3,) else [1.0 / k] * k
             c["point"] = dict(zip(c["cands"], vals))
+            if k >= 3 and rng.random() < 0.25:
+                # a zero coordinate (the docstring allows values in [0, 1]): dyadic halves on two candidates
+                vals = [0.5, 0.5] + [0.0] * (k - 2)
+                rng.shuffle(vals)
+                c["point"] = dict(zip(c["cands"], vals))
+            if rng.random() < 0.4:
+                ks = list(c["point"])
+                rng.shuffle(ks)
+                c["point"] = {x: c["point"][x] for x in ks}
         if gname == "ClusteredSpatial":
             c["per_cand"] = {x: rng.randint(0, 3) for x in c["cands"]}
             if sum(c["per_cand"].values()) == 0:
                 c["per_cand"][c["cands"][0]] = 1
         return c
     c.update(gen_params(rng, gname))
+    c["by_bloc"] = rng.choice([True, True, True, True, False, "omit"])
     if gname == "short_name_PL":
         ncand = sum(len(v) for v in c["slates"].values())
         c["ballot_length"] = rng.randint(1, ncand)
@@ -233,15 +245,20 @@ def run_generator(case):
                 out, by = (r, None) if isinstance(r, Err) else (r[0], None)
                 if not isinstance(r, Err):
                     extra = {"cand_pos": r[1], "voter_pos": r[2]}
-            elif name == "name_BT_MCMC":
-                r = call_impl(g.generate_profile_MCMC, case["N"], by_bloc=True, limit=60)
-                by, out = (None, r) if isinstance(r, Err) else r
-            elif name == "slate_BT_MCMC":
-                r = call_impl(g.generate_profile, case["N"], by_bloc=True, deterministic=False, limit=60)
-                by, out = (None, r) if isinstance(r, Err) else r
             else:
-                r = call_impl(g.generate_profile, case["N"], by_bloc=True, limit=60)
-                by, out = (None, r) if isinstance(r, Err) else r
+                # by_bloc: True -> (profiles by bloc, aggregate); False or left out -> the aggregate only
+                bb = case.get("by_bloc", True)
+                kw = {} if bb == "omit" else {"by_bloc": bool(bb)}
+                if name == "name_BT_MCMC":
+                    r = call_impl(g.generate_profile_MCMC, case["N"], limit=60, **kw)
+                elif name == "slate_BT_MCMC":
+                    r = call_impl(g.generate_profile, case["N"], deterministic=False, limit=60, **kw)
+                else:
+                    r = call_impl(g.generate_profile, case["N"], limit=60, **kw)
+                if isinstance(r, Err) or bb is not True:
+                    by, out = None, r
+                else:
+                    by, out = r
     finally:
         ap.remove()
     return {"gen": g, "out": out, "by_bloc": by, "log": rec.log, "apportion": ap.calls, "extra": extra}
@@ -305,11 +322,13 @@ def profile_val_named(nm, p):
 
 
 def bloc_ids(case):
-    return {b: i + 1 for i, b in enumerate(BLOCS)}
+    return {b: i + 1 for i, b in enumerate(case.get("bloc_universe", BLOCS))}
 
 
 def expected_gen(nm, case, run, calls):
     bid = bloc_ids(case)
+    if run.get("by_bloc") is None:
+        return ["aggregate-only", vk.profile_val(nm, run["out"]), calls]
     by = S([[bid[b], vk.profile_val(nm, p)] for b, p in run["by_bloc"].items()])
     return [by, vk.profile_val(nm, run["out"]), calls]
 
